@@ -69,6 +69,26 @@ snk_octet(void *driver, unsigned char c)
     return 1;
 }
 
+/* the same sink in chunk style: takes at most `trickle` octets per call (what a socket or a pipe does) */
+static size_t trickle = 0;
+
+static ssize_t
+snk_chunk(void *driver, const void *buf, size_t n)
+{
+    (void)driver;
+    if (room == 0) return -fullerr;
+    size_t k = n;
+    if (trickle && k > trickle) k = trickle;
+    if (k > room) k = room;
+    const unsigned char *b = buf;
+    for (size_t i = 0; i < k; i++) {
+        if (nout == outcap) { outcap = outcap ? outcap * 2 : 256; out = realloc(out, outcap); }
+        out[nout++] = b[i];
+    }
+    room -= k;
+    return (ssize_t)k;
+}
+
 static int
 my_alloc(void *driver, void **m, size_t n)
 {
@@ -299,6 +319,15 @@ harness_op(int argc, char **argv)
     if (strcmp(op, "rp.alloc") == 0 && argc == 2) {
         snprintf(ascript, sizeof ascript, "%s", strcmp(argv[1], "-") == 0 ? "" : argv[1]);
         apos = 0;
+        printf("ok");
+    } else if (strcmp(op, "rp.sinkmode") == 0 && argc == 2) {
+        /* what reaches the wire must not depend on the style of the sink driver: octet by octet, or chunks of
+         * which the driver takes at most k octets per call (chunk:0 = everything it is offered) */
+        Sink snk;
+        if (strcmp(argv[1], "octet") == 0) octet_sink_init(&snk, snk_octet, NULL);
+        else if (strncmp(argv[1], "chunk:", 6) == 0) { trickle = parse_u64(argv[1] + 6); chunk_sink_init(&snk, snk_chunk, NULL); }
+        else { printf("bad-op"); return; }
+        p.ep.sink = snk;
         printf("ok");
     } else if (strcmp(op, "rp.sink") == 0 && argc == 3) {
         int e = errbyname(argv[2]);
